@@ -363,5 +363,28 @@ func (c *checkCtx) minimiseAndConfirm(rp *report, shrink bool) {
 	if rp.Confirmed {
 		rp.Min = &cur
 		rp.MinSteps = steps
+		return
+	}
+	if steps == 0 {
+		return
+	}
+	// The shrunk configuration does not fail on its own in a fresh process:
+	// candidates of one round share a worker process, and a defect that keeps
+	// process-wide state can make a later candidate fail only because of an
+	// earlier one. Fall back to the original configuration, alone, in a fresh
+	// process.
+	orig := cloneCfg(rp.Run.Config)
+	res, herr = c.execConfigs([]simapi.RunConfig{orig}, "confirm-orig")
+	if herr == "" {
+		for _, r := range res {
+			if sameViolation(r, rp.Vio) {
+				rp.Confirmed = true
+				rp.MinSteps = 0
+				if r.Config != nil {
+					n := cloneCfg(r.Config)
+					rp.Min = &n
+				}
+			}
+		}
 	}
 }
